@@ -174,12 +174,15 @@ fn capture_format_string_idents(string_literal: &LitStr) -> syn::Result<Vec<Iden
     capture_format_strings(string_literal)?
         .into_iter()
         .map(|ident| {
-            syn::parse_str::<Ident>(ident.as_str()).map_err(|_| {
-                syn::Error::new_spanned(
-                    string_literal,
-                    "Invalid identifier inside format string bracket",
-                )
-            })
+            // `{type}` names a field declared as `r#type`, as it does in `format!`.
+            syn::parse_str::<Ident>(ident.as_str())
+                .or_else(|_| syn::parse_str::<Ident>(&format!("r#{}", ident)))
+                .map_err(|_| {
+                    syn::Error::new_spanned(
+                        string_literal,
+                        "Invalid identifier inside format string bracket",
+                    )
+                })
         })
         .collect()
 }
